@@ -408,6 +408,32 @@ def correspond(ctx):
     dist["ECDSA products checked for width (with a leading zero octet in r or s: %d)" % nlead] = len(ereq)
     st["evaluations"] += len(ereq)
 
+    # ---- D1: tokens made OUTSIDE the library (python ECDSA, all four curves): RFC 7515 / 8812 accept every (r, s) with
+    #          1 <= r, s < n, so both s and n - s verify -- there is no "low s" rule in JOSE
+    ireq, imeta = [], []
+    for alg, kn in G.SIGN_KEY_FOR.items():
+        if not alg.startswith("ES") or kn not in keys0:
+            continue
+        cv = pyec.CURVES[kn]
+        k = keys0[kn]
+        d = int.from_bytes(G.unb64(k["d"]), "big")
+        for i in range(6 if ctx["tier"] == "quick" else 40):
+            prot = G.b64(G.dumps({"alg": alg}).encode())
+            pay = G.b64(b"outside %d" % i)
+            dg = hashlib.new(HN[alg], (prot + "." + pay).encode()).digest()
+            sg = pyec.ecdsa_sign(cv, d, dg, rnd.randrange(1, cv["n"]))
+            sz = cv["size"]
+            r_, s_ = sg[:sz], int.from_bytes(sg[sz:], "big")
+            for half, sv in (("s", s_), ("n-s", cv["n"] - s_)):
+                tok = {"protected": prot, "payload": pay, "signature": G.b64(r_ + sv.to_bytes(sz, "big"))}
+                ireq.append("jwsver\t%s\t-\t%s\t0" % (G.dumps(tok), G.dumps(G.pub_of(k))))
+                imeta.append((alg, half, "high" if sv > cv["n"] // 2 else "low"))
+    for c, o, (alg, half, hl) in zip(ireq, G.harness(bdir, ireq), imeta):
+        if o != "T":
+            rep.violation("independent-ecdsa-token-rejected:%s:%s-s" % (alg, hl), "an %s token signed outside the library (%s half of the order) does not verify in jose: %s" % (alg, hl, o[:40]), {"case": c[:3000]})
+    dist["ECDSA tokens signed outside the library, s and n - s"] = len(ireq)
+    st["evaluations"] += len(ireq)
+
     # ---- D: jose's public-key products verified by the BigZ model; E: BigZ products verified by jose
     keys = G.standard_keys(bdir)
     req, meta = [], []
